@@ -17,6 +17,7 @@ import (
 	"os/exec"
 	"path"
 	"path/filepath"
+	"regexp"
 	"strings"
 	"syscall"
 	"time"
@@ -59,10 +60,11 @@ type c14Case struct {
 	maxRSSKB int64
 	fsWire   string
 	fsOK     bool
+	dir      string // the scratch directory of the run (absolute paths in argv and files name it)
 }
 
 func (tc *c14Case) Input() map[string]any {
-	return map[string]any{"kind": tc.Kind, "argv": tc.Argv, "files": tc.Files, "sched_seed": tc.Sched, "gomaxprocs": tc.Procs,
+	return map[string]any{"kind": tc.Kind, "argv": tc.Argv, "files": tc.Files, "sched_seed": tc.Sched, "gomaxprocs": tc.Procs, "dir": tc.dir,
 		"how": "write the files into an empty directory, cd into it, run knut with argv"}
 }
 
@@ -79,8 +81,42 @@ func (tc *c14Case) report() bool {
 	return false
 }
 
+var c14DateRe = regexp.MustCompile(`[0-9]{4}-[0-9]{2}-[0-9]{2}`)
+
+// wideWindow tells whether the dates in the files span more than three centuries while a fine interval is in
+// play (a --days/--weeks/--months report or an @accrue annotation): the number of periods, and with it time and
+// memory, then runs into the hundreds of thousands (recorded finding calendar-wide-window-memory).
+func (tc *c14Case) wideWindow() bool {
+	lo, hi := 10000, -1
+	accrue := false
+	for _, f := range tc.Files {
+		if strings.Contains(f.Data, "@accrue") {
+			accrue = true
+		}
+		for _, m := range c14DateRe.FindAllString(f.Data, -1) {
+			y := int(m[0]-'0')*1000 + int(m[1]-'0')*100 + int(m[2]-'0')*10 + int(m[3]-'0')
+			if y < lo {
+				lo = y
+			}
+			if y > hi {
+				hi = y
+			}
+		}
+	}
+	if hi-lo < 300 {
+		return false
+	}
+	fine := accrue
+	for _, a := range tc.Argv {
+		if a == "--days" || a == "--weeks" || a == "--months" {
+			fine = true
+		}
+	}
+	return fine
+}
+
 const c14Timeout = 10 * time.Second
-const c14VMemKB = 6 << 20     // ulimit -v: 6 GiB of address space (the Go runtime reserves far more than it touches)
+const c14VMemKB = 4 << 20     // ulimit -v: 4 GiB of address space (the Go runtime reserves far more than it touches)
 const c14MaxRSSKB = 700 << 10 // resident set bound
 
 // c14Materialize writes the files of the case under dir.
@@ -675,6 +711,12 @@ func c14GenGraph(c *Ctx, i int) *c14Case {
 		tc.Files = append(tc.Files, c14File{Rel: "sub", Kind: "dir"})
 	}
 	tc.Bal = c14WindowFlags(r, lo, hi, val)
+	if tc.Cmd == "balance" && r.Chance(1, 3) {
+		// the complete flag vector of the report checks: filters, mappings, remap, show (patterns in the driver's regex subset)
+		f := GenBalFlags(r, j, val, BalGenOpts{Valued: true})
+		tc.Bal = &f
+		tc.Tags = append(tc.Tags, "full-balance-flags")
+	}
 	tc.Val = val
 	if tc.Cmd == "infer" {
 		tc.Train = tc.Path
@@ -710,7 +752,7 @@ func c14GenBytes(c *Ctx, i int) *c14Case {
 	j, lo, hi := c14Journal(r, val)
 	text, _ := j.Text()
 	data := []byte(text)
-	switch r.Intn(6) {
+	switch r.Intn(9) {
 	case 0:
 		tc.Kind = "random-bytes"
 		n := r.Intn(200)
@@ -731,6 +773,23 @@ func c14GenBytes(c *Ctx, i int) *c14Case {
 		if len(data) > 0 {
 			data = data[:r.Intn(len(data))]
 		}
+	case 3:
+		tc.Kind = "intact"
+	case 4:
+		tc.Kind = "layout"
+		// comment lines, blank lines and trailing blanks between directives: nothing a command may trip over
+		lines := strings.SplitAfter(text, "\n\n")
+		var b strings.Builder
+		for _, l := range lines {
+			b.WriteString(l)
+			switch r.Intn(5) {
+			case 0:
+				b.WriteString(Pick(r, []string{"# note\n", "// note\n", "* heading\n", "#\n", "* ü \"quoted\" include \"x\"\n"}))
+			case 1:
+				b.WriteString(Pick(r, []string{"\n", "   \n", "\t\n", "\r\n"}))
+			}
+		}
+		data = []byte(b.String())
 	default:
 		tc.Kind = "mutated"
 		for m := r.Range(1, 4); m > 0 && len(data) > 0; m-- {
@@ -961,7 +1020,9 @@ func c14Subst(s, dir string) string {
 		return s
 	}
 	depth := strings.Count(dir, "/")
-	s = strings.ReplaceAll(s, "{ROOTUP}", strings.Repeat("../", depth+3))
+	// many more ..'s than needed: every level of the recursion then adds some 150 bytes to the path, so that the
+	// OS limit is reached after a few dozen levels (the chain check is quadratic in the number of levels)
+	s = strings.ReplaceAll(s, "{ROOTUP}", strings.Repeat("../", depth+40))
 	s = strings.ReplaceAll(s, "{ABS}", dir)
 	s = strings.ReplaceAll(s, "{UP}", "../"+filepath.Base(dir))
 	return s
@@ -1017,11 +1078,17 @@ func runC14(c *Ctx) {
 	// ---- path.Clean / path.Join against the model
 	c14Paths(c)
 
-	var cases []*c14Case
+	// cases are generated, run and evaluated chunk by chunk, so that the harness itself stays small (the resident
+	// set the kernel reports for a child starts from that of the process that spawned it)
+	type c14Job struct {
+		g func(*Ctx, int) *c14Case
+		i int
+	}
+	var jobs []c14Job
 	gen := func(stream string, n int, g func(*Ctx, int) *c14Case) {
 		for i := 0; i < n; i++ {
 			if c.Want(stream, i) {
-				cases = append(cases, g(c, i))
+				jobs = append(jobs, c14Job{g, i})
 			}
 		}
 	}
@@ -1030,41 +1097,21 @@ func runC14(c *Ctx) {
 	gen("special", c.N(600, 12000), c14GenSpecial)
 	gen("flags", c.N(500, 8000), c14GenFlags)
 	gen("slow", c.N(3, 12), c14GenKnownSlow)
-
-	parallelFor(len(cases), 12, func(k int) {
-		tc := cases[k]
-		dir := filepath.Join(root, fmt.Sprintf("%s%d", tc.Stream, tc.Index))
-		os.RemoveAll(dir)
-		tc.subst(dir)
-		c14Materialize(dir, tc.Files)
-		if tc.Model {
-			// the file system before the run (format and infer -i rewrite files)
-			roots, single := []string{tc.Path}, []string(nil)
-			if tc.Cmd == "infer" {
-				roots, single = []string{tc.Train}, []string{tc.Path}
-			}
-			if tc.Cmd == "format" {
-				roots, single = nil, []string{tc.Path}
-			}
-			tc.fsWire, tc.fsOK = c14FS(dir, roots, single)
+	if c.Replay && c.OnlyStr == "directed" {
+		// a finding of the directed search carries its own input (the absolute paths in it name the scratch
+		// directory of the original run, which is recreated under the same name)
+		if d := c14FromReplay(c); d != nil {
+			c14RunDirected(c, knut, root, d)
 		}
-		c14Exec(knut, dir, tc)
-		// make everything removable again
-		filepath.Walk(dir, func(p string, info os.FileInfo, err error) error {
-			if err == nil && info.Mode()&os.ModeSymlink == 0 {
-				os.Chmod(p, 0o755)
-			}
-			return nil
-		})
-		os.RemoveAll(dir)
-	})
+		return
+	}
 
 	bt := c.NewBatch()
 	bt.Limit = 400
-	defer bt.Flush()
 	var maxWall time.Duration
 	var maxRSS int64
-	slowest := ""
+	slowest, largest := "", ""
+	var suspects []*c14Case // cases on which model and binary disagree: searched further below
 	knownSeen := map[string]int{}
 	// at most three reports per recorded finding, so that every key that occurs is listed
 	monitorKnown := func(tc *c14Case, pred string, in any, detail, key string) {
@@ -1076,107 +1123,263 @@ func runC14(c *Ctx) {
 		}
 	}
 	td := today()
-	for _, tc := range cases {
-		tc := tc
-		c.Evals++
-		in := tc.Input()
-		cls := tc.implClass()
-		if tc.wall > maxWall && tc.Known == "" {
-			maxWall = tc.wall
-			slowest = fmt.Sprintf("%s/%d %s %s", tc.Stream, tc.Index, tc.Kind, strings.Join(tc.Argv, " "))
+	const chunk = 2500
+	for start := 0; start < len(jobs); start += chunk {
+		end := min(start+chunk, len(jobs))
+		cases := make([]*c14Case, 0, end-start)
+		for _, jb := range jobs[start:end] {
+			cases = append(cases, jb.g(c, jb.i))
 		}
-		if tc.maxRSSKB > maxRSS && tc.Known == "" {
-			maxRSS = tc.maxRSSKB
-		}
-		c.Class(fmt.Sprintf("c14/%s/%s/%s/%s", tc.Stream, tc.Kind, tc.Cmd, cls))
-		c.Tag("cmd:" + tc.Cmd)
-		c.Tag("class:" + cls)
-		for _, t := range tc.Tags {
-			c.Tag(t)
-		}
-		if tc.Sched != 0 {
-			c.Tag("schedule-perturbed")
-		}
-		if (tc.Cmd == "returns" || tc.Cmd == "weights") && cls == "error" && tc.stdout != "" {
-			c.Tag("observed:portfolio-" + tc.Cmd + "-partial-stdout-on-failure")
-		}
-		if tc.Index < 2 && (tc.Stream == "graph" || tc.Stream == "flags") {
-			c.Sample(map[string]any{"argv": tc.Argv, "files": len(tc.Files), "kind": tc.Kind, "ending": tc.ending, "stderr": clip(tc.stderr)[:min(len(tc.stderr), 300)]})
-		}
-		detail := fmt.Sprintf("%s after %.2fs, max RSS %d KB\nstdout (%d bytes): %q\nstderr: %s", tc.ending, tc.wall.Seconds(), tc.maxRSSKB, len(tc.stdout),
-			clip(tc.stdout)[:min(len(tc.stdout), 200)], clip(tc.stderr)[:min(len(tc.stderr), 1500)])
-
-		// ---- built to exhibit a recorded finding: resource use growing with a flag value / the window
-		if tc.Known != "" {
-			if cls == "timeout" || cls == "killed" || tc.maxRSSKB > c14MaxRSSKB {
-				monitorKnown(tc, "terminates_within_bounds", in, detail, tc.Known)
-			} else {
-				c.Monitor(tc.Stream, tc.Index, "fails_cleanly", in, cls == "ok" || cls == "error", detail)
-			}
-			continue
-		}
-		// ---- memory stays bounded
-		c.Monitor(tc.Stream, tc.Index, "memory_bounded", in, tc.maxRSSKB <= c14MaxRSSKB, detail)
-
-		// ---- the model's outcome class, then the property predicate (a predicted panic is the recorded finding)
-		finish := func(modelAns string) {
-			known := ""
-			if strings.HasPrefix(modelAns, "panic ") && cls == "panic" {
-				site := UnHex(strings.TrimPrefix(modelAns, "panic "))
-				if strings.HasPrefix(site, "accrual: ") {
-					known = "accrual-window-starting-0001-01-01"
-				} else if strings.Contains(site, "zero time") {
-					known = "transaction-dated-0001-01-01"
-				}
-			} else if modelAns == "panic" && cls == "panic" && strings.Contains(tc.stderr, "can't create partition with zero time") {
-				known = "transaction-dated-0001-01-01" // portfolio: class only
-			}
-			so, se, cr, ef := b2s(tc.stdout == ""), b2s(strings.TrimSpace(tc.stderr) == ""), b2s(c14Crash(tc.stderr)), b2s(tc.ExpectFail)
-			bt.Add(func(mon string) {
-				switch {
-				case mon == "ok":
-					c.Monitored++
-				case known != "":
-					monitorKnown(tc, "fails_cleanly", in, detail+"\n=> "+mon+" (model predicts this panic)", known)
-				default:
-					c.Monitor(tc.Stream, tc.Index, strings.ReplaceAll(strings.TrimPrefix(mon, "fail "), "-", "_"), in, false, detail+"\n=> "+mon)
-				}
-			}, "c14mon", b2s(tc.report()), tc.ending, so, se, cr, ef)
-		}
-		if !tc.Model || !tc.fsOK || len(tc.fsWire) > 900000 {
+		parallelFor(len(cases), 12, func(k int) {
+			tc := cases[k]
+			dir := filepath.Join(root, fmt.Sprintf("%s%d", tc.Stream, tc.Index))
+			os.RemoveAll(dir)
+			tc.subst(dir)
+			tc.dir = dir
+			c14Materialize(dir, tc.Files)
 			if tc.Model {
-				c.Tag("model-skipped:fs-too-large")
+				// the file system before the run (format and infer -i rewrite files)
+				roots, single := []string{tc.Path}, []string(nil)
+				if tc.Cmd == "infer" {
+					roots, single = []string{tc.Train}, []string{tc.Path}
+				}
+				if tc.Cmd == "format" {
+					roots, single = nil, []string{tc.Path}
+				}
+				tc.fsWire, tc.fsOK = c14FS(dir, roots, single)
 			}
-			finish("")
-			continue
-		}
-		mcmd, _ := c14ModelCmd(tc.Cmd)
-		if dbg := os.Getenv("C14_DEBUG"); dbg != "" && c.Replay {
-			os.WriteFile(dbg, []byte(strings.Join([]string{"c14run", mcmd, Hex(tc.Path), "BAL", tc.extraWire(), tc.fsWire}, " ")+"\n"), 0o644)
-		}
-		bal := "-"
-		if tc.Bal != nil && (tc.Cmd == "balance" || tc.Cmd == "returns" || tc.Cmd == "weights") {
-			bal = tc.Bal.Wire(td)
-		}
-		bt.Add(func(ans string) {
-			mclass := strings.Fields(ans + " x")[0]
-			c.Compare(tc.Stream, tc.Index, "outcome_class_"+tc.Cmd, in, cls, mclass)
-			if mclass == "ok" && strings.HasPrefix(ans, "ok ") && cls == "ok" && tc.Cmd != "returns" && tc.Cmd != "weights" {
-				// stdout emptiness on success as well (cheap byte-level sanity of the composed model)
-				c.Compare(tc.Stream, tc.Index, "stdout_empty_"+tc.Cmd, in, b2s(tc.stdout == ""), strings.TrimPrefix(ans, "ok "))
+			c14Exec(knut, dir, tc)
+			// make everything removable again
+			filepath.Walk(dir, func(p string, info os.FileInfo, err error) error {
+				if err == nil && info.Mode()&os.ModeSymlink == 0 {
+					os.Chmod(p, 0o755)
+				}
+				return nil
+			})
+			os.RemoveAll(dir)
+		})
+
+		for _, tc := range cases {
+			tc := tc
+			c.Evals++
+			in := tc.Input()
+			cls := tc.implClass()
+			if tc.wall > maxWall && tc.Known == "" {
+				maxWall = tc.wall
+				slowest = fmt.Sprintf("%s/%d %s %s", tc.Stream, tc.Index, tc.Kind, strings.Join(tc.Argv, " "))
 			}
-			finish(ans)
-		}, "c14run", mcmd, Hex(tc.Path), bal, tc.extraWire(), tc.fsWire)
+			if tc.maxRSSKB > maxRSS && tc.Known == "" {
+				maxRSS = tc.maxRSSKB
+				largest = fmt.Sprintf("%s/%d %s %s", tc.Stream, tc.Index, tc.Kind, strings.Join(tc.Argv, " "))
+			}
+			c.Class(fmt.Sprintf("c14/%s/%s/%s/%s", tc.Stream, tc.Kind, tc.Cmd, cls))
+			c.Tag("cmd:" + tc.Cmd)
+			c.Tag("class:" + cls)
+			for _, t := range tc.Tags {
+				c.Tag(t)
+			}
+			if tc.Sched != 0 {
+				c.Tag("schedule-perturbed")
+			}
+			if (tc.Cmd == "returns" || tc.Cmd == "weights") && cls == "error" && tc.stdout != "" {
+				c.Tag("observed:portfolio-" + tc.Cmd + "-partial-stdout-on-failure")
+			}
+			if tc.Index < 2 && (tc.Stream == "graph" || tc.Stream == "flags") {
+				c.Sample(map[string]any{"argv": tc.Argv, "files": len(tc.Files), "kind": tc.Kind, "ending": tc.ending, "stderr": clip(tc.stderr)[:min(len(tc.stderr), 300)]})
+			}
+			detail := fmt.Sprintf("%s after %.2fs, max RSS %d KB\nstdout (%d bytes): %q\nstderr: %s", tc.ending, tc.wall.Seconds(), tc.maxRSSKB, len(tc.stdout),
+				clip(tc.stdout)[:min(len(tc.stdout), 200)], clip(tc.stderr)[:min(len(tc.stderr), 1500)])
+
+			// ---- built to exhibit a recorded finding: resource use growing with a flag value / the window
+			if tc.Known != "" {
+				if cls == "timeout" || cls == "killed" || tc.maxRSSKB > c14MaxRSSKB {
+					monitorKnown(tc, "terminates_within_bounds", in, detail, tc.Known)
+				} else {
+					c.Monitor(tc.Stream, tc.Index, "fails_cleanly", in, cls == "ok" || cls == "error", detail)
+				}
+				continue
+			}
+			// ---- memory stays bounded; a window over centuries at a fine interval is the recorded resource finding
+			wide := tc.wideWindow()
+			if wide {
+				c.Tag("wide-window")
+			}
+			if tc.maxRSSKB > c14MaxRSSKB || cls == "timeout" || cls == "killed" {
+				if wide {
+					monitorKnown(tc, "terminates_within_bounds", in, detail, "calendar-wide-window-memory")
+					continue
+				}
+			}
+			c.Monitor(tc.Stream, tc.Index, "memory_bounded", in, tc.maxRSSKB <= c14MaxRSSKB, detail)
+
+			// ---- the model's outcome class, then the property predicate (a predicted panic is the recorded finding)
+			finish := func(modelAns string) {
+				known := ""
+				if strings.HasPrefix(modelAns, "panic ") && cls == "panic" {
+					site := UnHex(strings.TrimPrefix(modelAns, "panic "))
+					if strings.HasPrefix(site, "accrual: ") {
+						known = "accrual-window-starting-0001-01-01"
+					} else if strings.Contains(site, "zero time") {
+						known = "transaction-dated-0001-01-01"
+					}
+				} else if modelAns == "panic" && cls == "panic" && strings.Contains(tc.stderr, "can't create partition with zero time") {
+					known = "transaction-dated-0001-01-01" // portfolio: class only
+				}
+				so, se, cr, ef := b2s(tc.stdout == ""), b2s(strings.TrimSpace(tc.stderr) == ""), b2s(c14Crash(tc.stderr)), b2s(tc.ExpectFail)
+				bt.Add(func(mon string) {
+					switch {
+					case mon == "ok":
+						c.Monitored++
+					case known != "":
+						monitorKnown(tc, "fails_cleanly", in, detail+"\n=> "+mon+" (model predicts this panic)", known)
+					default:
+						c.Monitor(tc.Stream, tc.Index, strings.ReplaceAll(strings.TrimPrefix(mon, "fail "), "-", "_"), in, false, detail+"\n=> "+mon)
+					}
+				}, "c14mon", b2s(tc.report()), tc.ending, so, se, cr, ef)
+			}
+			if !tc.Model || !tc.fsOK || len(tc.fsWire) > 900000 {
+				if tc.Model {
+					c.Tag("model-skipped:fs-too-large")
+				}
+				finish("")
+				continue
+			}
+			mcmd, _ := c14ModelCmd(tc.Cmd)
+			if dbg := os.Getenv("C14_DEBUG"); dbg != "" && c.Replay {
+				os.WriteFile(dbg, []byte(strings.Join([]string{"c14run", mcmd, Hex(tc.Path), "BAL", tc.extraWire(), tc.fsWire}, " ")+"\n"), 0o644)
+			}
+			bal := "-"
+			if tc.Bal != nil && (tc.Cmd == "balance" || tc.Cmd == "returns" || tc.Cmd == "weights") {
+				bal = tc.Bal.Wire(td)
+			}
+			bt.Add(func(ans string) {
+				mclass := strings.Fields(ans + " x")[0]
+				if !c.Compare(tc.Stream, tc.Index, "outcome_class_"+tc.Cmd, in, cls, mclass) {
+					suspects = append(suspects, tc)
+				}
+				if mclass == "ok" && strings.HasPrefix(ans, "ok ") && cls == "ok" && tc.Cmd != "returns" && tc.Cmd != "weights" {
+					// stdout emptiness on success as well (cheap byte-level sanity of the composed model)
+					c.Compare(tc.Stream, tc.Index, "stdout_empty_"+tc.Cmd, in, b2s(tc.stdout == ""), strings.TrimPrefix(ans, "ok "))
+				}
+				finish(ans)
+			}, "c14run", mcmd, Hex(tc.Path), bal, tc.extraWire(), tc.fsWire)
+		}
+		bt.Flush()
+		// drop what is no longer needed (the suspects keep their files for the directed search)
+		keep := map[*c14Case]bool{}
+		for _, sc := range suspects {
+			keep[sc] = true
+		}
+		for _, tc := range cases {
+			if !keep[tc] {
+				tc.stdout, tc.stderr, tc.fsWire, tc.Files = "", "", "", nil
+			}
+		}
 	}
 	bt.Flush()
+	// ---- directed search around disagreements: the same tree and command under other schedules and processor
+	// counts, with the model's own verdict on the include graph as the expectation of the monitor
+	if len(suspects) > 8 {
+		suspects = suspects[:8]
+	}
+	for _, tc := range suspects {
+		if c.Replay {
+			break
+		}
+		loadRoot := tc.Path
+		if tc.Cmd == "infer" {
+			loadRoot = tc.Train
+		}
+		expect := tc.ExpectFail
+		if tc.Cmd != "format" && tc.fsOK {
+			if ans := c.Drv.Ask("c14load", Hex(loadRoot), tc.fsWire); strings.HasPrefix(ans, "error") {
+				expect = true
+			}
+		}
+		for k := 0; k < 6; k++ {
+			d := *tc
+			d.Stream, d.Index = "directed", tc.Index*10+k
+			d.Sched, d.Procs = 1000+7*k, []int{1, 2, 4, 0, 16, 8}[k]
+			d.ExpectFail = expect
+			c14RunDirected(c, knut, root, &d)
+		}
+	}
+	c.Extra["directed_around"] = len(suspects)
 	c.Extra["max_wall_s"] = maxWall.Seconds()
 	c.Extra["slowest_case"] = slowest
+	c.Extra["largest_case"] = largest
 	c.Extra["known_finding_runs"] = knownSeen
 	c.Extra["max_rss_kb"] = maxRSS
 	c.Extra["timeout_s"] = c14Timeout.Seconds()
 	c.Extra["ulimit_v_kb"] = c14VMemKB
 	c.Extra["running_as_root"] = os.Geteuid() == 0
 	c.Notes = append(c.Notes, "every case: own scratch directory, /bin/sh -c 'ulimit -v; exec knut …', wall-clock bound, stdout/stderr captured; the model sees the file system through the path strings the loader can form")
+}
+
+// c14RunDirected runs one already substituted case and applies the monitors (no model comparison).
+func c14RunDirected(c *Ctx, knut, root string, d *c14Case) {
+	dir := d.dir // the directory of the original run: absolute paths in the case name it
+	if dir == "" {
+		dir = filepath.Join(root, fmt.Sprintf("%s%d", d.Stream, d.Index))
+	}
+	os.RemoveAll(dir)
+	c14Materialize(dir, d.Files)
+	c14Exec(knut, dir, d)
+	os.RemoveAll(dir)
+	c.Evals++
+	c.Class(fmt.Sprintf("c14/directed/%s/%s/%s", d.Kind, d.Cmd, d.implClass()))
+	detail := fmt.Sprintf("%s after %.2fs, max RSS %d KB\nstdout (%d bytes)\nstderr: %s", d.ending, d.wall.Seconds(), d.maxRSSKB, len(d.stdout), clip(d.stderr)[:min(len(d.stderr), 1500)])
+	mon := c.Drv.Ask("c14mon", b2s(d.report()), d.ending, b2s(d.stdout == ""), b2s(strings.TrimSpace(d.stderr) == ""), b2s(c14Crash(d.stderr)), b2s(d.ExpectFail))
+	if mon == "ok" {
+		c.Monitored++
+		return
+	}
+	c.Monitor(d.Stream, d.Index, strings.ReplaceAll(strings.TrimPrefix(mon, "fail "), "-", "_"), d.Input(), false, detail+"\n=> "+mon)
+}
+
+// c14FromReplay rebuilds a directed case from the input recorded in a finding.
+func c14FromReplay(c *Ctx) *c14Case {
+	in := c.ReplayInput
+	if in == nil {
+		return nil
+	}
+	d := &c14Case{Stream: "directed", Index: c.OnlyIndex, ExpectFail: true}
+	d.Kind, _ = in["kind"].(string)
+	d.dir, _ = in["dir"].(string)
+	if a, ok := in["argv"].([]any); ok {
+		for _, x := range a {
+			d.Argv = append(d.Argv, fmt.Sprint(x))
+		}
+	}
+	if fs, ok := in["files"].([]any); ok {
+		for _, x := range fs {
+			if m, ok := x.(map[string]any); ok {
+				f := c14File{}
+				f.Rel, _ = m["rel"].(string)
+				f.Data, _ = m["data"].(string)
+				f.Kind, _ = m["kind"].(string)
+				d.Files = append(d.Files, f)
+			}
+		}
+	}
+	if v, ok := in["sched_seed"].(float64); ok {
+		d.Sched = int(v)
+	}
+	if v, ok := in["gomaxprocs"].(float64); ok {
+		d.Procs = int(v)
+	}
+	if len(d.Argv) > 0 {
+		d.Cmd = d.Argv[0]
+		if d.Cmd == "portfolio" && len(d.Argv) > 1 {
+			d.Cmd = d.Argv[1]
+		}
+		for _, a := range d.Argv {
+			if a == "--write" && d.Cmd == "check" {
+				d.Cmd = "check-write"
+			}
+		}
+	}
+	return d
 }
 
 // c14Paths compares path.Clean and path.Join(filepath.Dir(a), b) with the model.
